@@ -93,6 +93,7 @@ type Sched struct {
 	seq      int
 	switches int
 	inInit   int
+	preemptions int
 	maxGs    int
 }
 
@@ -378,11 +379,30 @@ func (s *Sched) pick() *goroutine {
 			}
 			s.deadlock()
 		}
+		bound := -1
+		if s.r.entry != nil && s.r.entry.Preempt > 0 {
+			bound = s.r.entry.Preempt
+		}
 		var cand []*goroutine
 		for _, g := range en {
-			if !s.asleep(g) {
+			if bound >= 0 || !s.asleep(g) { // sleep sets are not combined with preemption bounding
 				cand = append(cand, g)
 			}
+		}
+		// preemption bounding (CHESS): switching away from a goroutine that could continue, or letting
+		// an environment event overtake it, is a preemption; once the budget is spent the running
+		// goroutine continues until it blocks or ends
+		curEnabled := false
+		if bound >= 0 && s.cur != nil && !s.cur.done && s.cur.pending != nil {
+			for _, g := range cand {
+				if g == s.cur {
+					curEnabled = true
+				}
+			}
+		}
+		if curEnabled && s.preemptions >= bound {
+			cand = []*goroutine{s.cur}
+			nt = 0
 		}
 		n := len(cand)
 		if nt > 0 {
@@ -393,6 +413,9 @@ func (s *Sched) pick() *goroutine {
 			panic(runAbort{"pruned"})
 		}
 		c := s.r.choose('s', n)
+		if curEnabled && (c >= len(cand) || cand[c] != s.cur) {
+			s.preemptions++
+		}
 		if c < len(cand) {
 			chosen := cand[c]
 			var ns []sleepEntry
